@@ -52,6 +52,7 @@ type Interp struct {
 	// statistics across runs
 	funcsEntered map[string]int
 	stubsUsed    map[string]int
+	sentinels    map[string]*Value
 	instrCount   int64
 }
 
@@ -102,6 +103,26 @@ func (fr *frame) get(key ssa.Value) Value {
 			fr.in.globals[key] = &v
 			fr.in.stubsUsed["time package globals (zero-initialised)"]++
 			return fr.in.globals[key]
+		}
+		if key.Pkg != nil {
+			// sentinel errors of the standard library keep their identity
+			name := key.Pkg.Pkg.Path() + "." + key.Name()
+			if alias, ok := sentinelAlias[name]; ok {
+				name = alias
+			}
+			if msg, ok := sentinelErrors[name]; ok {
+				if fr.in.sentinels == nil {
+					fr.in.sentinels = map[string]*Value{}
+				}
+				cell := fr.in.sentinels[name]
+				if cell == nil {
+					v := fr.in.mkError(fr, mkStr(msg))
+					cell = &v
+					fr.in.sentinels[name] = cell
+				}
+				fr.in.globals[key] = cell
+				return cell
+			}
 		}
 		panic(engineErr("read of global of a package that was not initialised: " + key.String()))
 	}
@@ -171,6 +192,33 @@ func (in *Interp) tpanic(kind, msg string) {
 }
 
 const maxCallDepth = 3000
+
+var sentinelErrors = map[string]string{
+	"io/fs.SkipDir": "skip this directory", "io/fs.SkipAll": "skip everything and stop the walk",
+	"io.EOF": "EOF", "io.ErrUnexpectedEOF": "unexpected EOF",
+	"io/fs.ErrNotExist": "file does not exist", "io/fs.ErrExist": "file already exists", "io/fs.ErrPermission": "permission denied",
+}
+
+var sentinelAlias = map[string]string{
+	"path/filepath.SkipDir": "io/fs.SkipDir", "path/filepath.SkipAll": "io/fs.SkipAll",
+	"os.ErrNotExist": "io/fs.ErrNotExist", "os.ErrExist": "io/fs.ErrExist", "os.ErrPermission": "io/fs.ErrPermission",
+}
+
+// frGlobal returns the cell of a package-level variable of an imported package.
+func (in *Interp) frGlobal(fr *frame, pkg, name string) *Value {
+	p := in.prog.ImportedPackage(pkg)
+	if p == nil {
+		panic(engineErr("package not loaded: " + pkg))
+	}
+	g, ok := p.Members[name].(*ssa.Global)
+	if !ok {
+		panic(engineErr("no such global: " + pkg + "." + name))
+	}
+	if fr == nil {
+		fr = &frame{in: in}
+	}
+	return fr.get(g).(*Value)
+}
 
 // brVal forks on a Bool value.
 func (in *Interp) brVal(b Bool) bool {
@@ -485,6 +533,9 @@ func (in *Interp) prepareCall(fr *frame, call *ssa.CallCommon) (fn Value, args [
 					case "IsDir":
 						return mkBool(fi.dir)
 					case "Name":
+						if fi.name != "" {
+							return mkStr(fi.name)
+						}
 						return mkStr("f")
 					case "Size":
 						return mkInt(types.Int64, 0)
@@ -506,6 +557,11 @@ func (in *Interp) prepareCall(fr *frame, call *ssa.CallCommon) (fn Value, args [
 						return mkBool(de.dir)
 					case "Name":
 						return mkStr(de.name)
+					case "Type":
+						if de.dir {
+							return Int{K: types.Uint32, C: 1 << 31} // fs.ModeDir
+						}
+						return Int{K: types.Uint32, C: 0}
 					}
 					panic(engineErr("UNSUPPORTED os.DirEntry method " + name))
 				}}
